@@ -5,6 +5,7 @@ go 1.23
 require (
 	github.com/consensys/gnark v0.8.0
 	github.com/consensys/gnark-crypto v0.9.1
+	github.com/iden3/go-iden3-crypto v0.0.13
 	github.com/reilabs/gnark-lean-extractor/v2 v2.1.0
 	github.com/rs/zerolog v1.29.0
 	golang.org/x/crypto v0.25.0
@@ -36,7 +37,6 @@ require (
 	github.com/davecgh/go-spew v1.1.2-0.20180830191138-d8f796af33cc // indirect
 	github.com/fxamacker/cbor/v2 v2.4.0 // indirect
 	github.com/google/pprof v0.0.0-20230817174616-7a8ec2ada47b // indirect
-	github.com/iden3/go-iden3-crypto v0.0.13 // indirect
 	github.com/mattn/go-colorable v0.1.13 // indirect
 	github.com/mattn/go-isatty v0.0.20 // indirect
 	github.com/mitchellh/copystructure v1.2.0 // indirect
